@@ -227,5 +227,13 @@ def check(rep, ctx):
         issues = [i for i in issues if i[0] in ("T-trunc", "T-unit", "T-int")]
         rep.check(R_T, q is not None and not issues, construct=f.ref, stmt=timeflow.show(c2),
                   message="; ".join(f"{r}: {m}" for r, m, _ in issues) or "conversion not understood", file=file, line=f.node.lineno)
+    from .. import scan
+    R_M = rep.rule("C17-memo", "no conversion on the batch-writing path is memoised on a datetime/number", floor=0)
+    for m in scan.memoised_functions(ctx, ["kio.records.writers", "kio.serial.writers"]):
+        rep.check(R_M, not m["bad_params"], construct=f"{m['module']}:{m['function']}", stmt=m["stmt"],
+                  message=f"memoised on parameters {m['bad_params']}: datetimes that differ only in fold (the repeated hour at the end of DST) "
+                          f"compare equal but are different instants; the second one is written with the first one's milliseconds",
+                  file=m["file"], line=m["line"])
+    rep.count(R_M, 1, instance="scan")
     rep.sample({"rule": "C17-layout", "spec": BATCH_SPEC})
     rep.trusted_base += ["crc32c.crc32c (external C extension)", "struct format table", "kverif/records.py BATCH_SPEC written from the Kafka record batch documentation"]
